@@ -297,43 +297,51 @@ namespace smt
 
     SMT_EXPORT std::pair<I, I> idl_theory::bounds(const lin &l) const
     {
-        I c_lb(0);
-        I c_ub(0);
+        // scales a (possibly infinite) bound by an integer coefficient and adds a constant..
+        const auto scale = [](const I &b, const I &c, const I &k) -> I
+        {
+            if (b >= inf())
+                return c > 0 ? inf() : -inf();
+            else if (b <= -inf())
+                return c > 0 ? -inf() : inf();
+            else
+                return b * c + k;
+        };
 
         switch (l.vars.size())
         {
         case 0:
             if (!is_integer(l.known_term))
                 throw std::invalid_argument("not a valid integer difference logic constraint..");
-            c_lb += l.known_term.numerator();
-            c_ub += l.known_term.numerator();
-            break;
+            return std::make_pair(l.known_term.numerator(), l.known_term.numerator());
         case 1:
         {
-            auto it = l.vars.cbegin();
-            if (!is_integer(it->second) | !is_integer(l.known_term))
+            const auto [v, c] = *l.vars.cbegin();
+            if (!is_integer(c) || !is_integer(l.known_term))
                 throw std::invalid_argument("not a valid integer difference logic constraint..");
-            c_lb += lb(it->first) * it->second.numerator() + l.known_term.numerator();
-            c_ub += ub(it->first) * it->second.numerator() + l.known_term.numerator();
-            break;
+            if (is_positive(c))
+                return std::make_pair(scale(lb(v), c.numerator(), l.known_term.numerator()), scale(ub(v), c.numerator(), l.known_term.numerator()));
+            else // a negative coefficient swaps the bounds..
+                return std::make_pair(scale(ub(v), c.numerator(), l.known_term.numerator()), scale(lb(v), c.numerator(), l.known_term.numerator()));
         }
         case 2:
         {
-            const auto expr = l / l.vars.cbegin()->second;
+            const rational c = l.vars.cbegin()->second;
+            const auto expr = l / c;
             auto it = expr.vars.cbegin();
             [[maybe_unused]] const auto [v0, c0] = *it++;
             const auto [v1, c1] = *it;
-            if (!is_integer(c1) || c1.numerator() != -1 || !is_integer(l.known_term))
+            if (c1 != -rational::ONE || !is_integer(c) || !is_integer(l.known_term))
                 throw std::invalid_argument("not a valid integer difference logic expression..");
-            const auto dist = distance(v1, v0);
-            c_lb += dist.first + expr.known_term.numerator();
-            c_ub += dist.second + expr.known_term.numerator();
-            break;
+            const auto dist = distance(v1, v0); // the bounds of 'v0 - v1'..
+            if (is_positive(c))
+                return std::make_pair(scale(dist.first, c.numerator(), l.known_term.numerator()), scale(dist.second, c.numerator(), l.known_term.numerator()));
+            else
+                return std::make_pair(scale(dist.second, c.numerator(), l.known_term.numerator()), scale(dist.first, c.numerator(), l.known_term.numerator()));
         }
         default:
             throw std::invalid_argument("not a valid integer difference logic expression..");
         }
-        return std::make_pair(c_lb, c_ub);
     }
 
     SMT_EXPORT std::pair<I, I> idl_theory::distance(const lin &from, const lin &to) const
